@@ -738,9 +738,10 @@ def rule_h(ctx):
         f = m.func(WAS, f"{cname}._solve")
         crit = []
         for n in ast.walk(f.node):
-            if isinstance(n, ast.If) and any(isinstance(s_, ast.Assign) and isinstance(s_.value, ast.Constant) and s_.value.value is True for s_ in n.body) and any(isinstance(s_, ast.Break) for s_ in n.body):
+            if isinstance(n, ast.If) and any(isinstance(s_, ast.Break) for s_ in n.body) and sum(
+                    1 for c in ast.walk(n.test) if isinstance(c, ast.Compare) and any(isinstance(x, ast.Subscript) and isinstance(x.slice, ast.Constant) and isinstance(x.slice.value, str) for x in ast.walk(c.left))) >= 2:
                 crit.append(n)
-        ctx.need(len(crit) == 1, f"{f.qname}: the stopping test (sets a flag True and breaks) was not found")
+        ctx.need(len(crit) == 1, f"{f.qname}: the stopping test (a conjunction over the convergence history that leaves the loop) was not found")
         comps = [c for c in ast.walk(crit[0].test) if isinstance(c, ast.Compare) and len(c.ops) == 1 and isinstance(c.ops[0], (ast.Lt, ast.LtE))]
         n_hist = 0
         for c in comps:
